@@ -5,12 +5,20 @@ ENV = os.path.join(os.path.dirname(os.path.dirname(os.path.abspath(__file__))), 
 UNIT = {
     "name": "edition",
     "env": [os.path.join(ENV, "edition_env.rs")],
-    "declared_trusted": {r"external_body": 4},
+    "declared_trusted": {r"external_body": 5},
     "items": [
         # C14 / C12 ("an unsupported edition/target pair yields its error"): choosing a target leaves the edition the user chose alone -
         # whatever order the two builder calls come in, Builder::generate sees both and rejects the pair (sync_features below)
         {"kind": "fn", "file": "bindgen/lib.rs", "name": "set_rust_target", "impl": r"^impl BindgenOptions$", "impl_header": "impl BindgenOptions", "impl_name": "BindgenOptions",
          "ensures": ["final(self).rust_target == rust_target", "final(self).rust_edition == old(self).rust_edition", "final(self).rust_features == old(self).rust_features"]},
+        # the two builder methods (declared inside the options! macro invocation; found by name in the macro's token text): each
+        # records exactly what it was given and leaves the other choice alone - an explicit edition is never dropped, so the
+        # unsupported-edition check of Builder::generate cannot be bypassed by the order of the calls
+        {"kind": "fn", "file": "bindgen/options/mod.rs", "name": "rust_edition", "impl_header": "impl Builder", "impl_name": "Builder", "ret": "r",
+         # R34 `mut self` (unsupported by Verus) -> `self` moved into a mutable local at the top of the body
+         "subst": [("(mut self,", "(self,", 1, "R34 mut self"), (r"re:(?<![\w.])self(?=\.options)", "this", 0, "R34 mut self"), (r"re:(?m)^(\s*)self\s*$", r"\1this", 1, "R34 mut self")],
+         "ghost_start": "let mut this = self;",
+         "ensures": ["r.options.rust_edition == Some(rust_edition)", "r.options.rust_target == self.options.rust_target"]},
         {"kind": "fn", "file": "bindgen/lib.rs", "name": "sync_features", "impl": r"^impl Builder$", "impl_nth": 0, "ret": "r",
          "closure": {"enclosing": "generate", "anchor": "self.options.rust_features = match self.options.rust_edition {", "nth": 0,
                      "signature": "fn sync_features(self_: &Builder) -> (r: Result<RustFeatures, BindgenError>)",
